@@ -34,6 +34,8 @@ enum Tok {
     Sheet(String, bool),
     Ident(String),
     Num(String),
+    /// bracketed span `[s]`: structured-reference specifier or workbook index
+    Struct(String),
     Punct(char),
 }
 
@@ -78,6 +80,11 @@ impl Tok {
                 out.push('!');
             }
             Tok::Ident(s) | Tok::Num(s) => out.push_str(s),
+            Tok::Struct(s) => {
+                out.push('[');
+                out.push_str(s);
+                out.push(']');
+            }
             Tok::Punct(c) => out.push(*c),
         }
     }
@@ -100,6 +107,7 @@ impl Tok {
             Tok::Sheet(n, false) => format!("U,{}", hex(n.as_bytes())),
             Tok::Ident(s) => format!("I,{}", hex(s.as_bytes())),
             Tok::Num(s) => format!("N,{}", hex(s.as_bytes())),
+            Tok::Struct(s) => format!("B,{}", hex(s.as_bytes())),
             Tok::Punct(c) => format!("P,{}", hex(c.to_string().as_bytes())),
         }
     }
@@ -113,6 +121,7 @@ impl Tok {
             "U" => Tok::Sheet(txt(1), false),
             "I" => Tok::Ident(txt(1)),
             "N" => Tok::Num(txt(1)),
+            "B" => Tok::Struct(txt(1)),
             "P" => Tok::Punct(txt(1).chars().next().unwrap()),
             x => panic!("bad token {x}"),
         }
@@ -169,6 +178,11 @@ const SHEETS_PLAIN: &[&str] = &["Sheet1", "AB1", "Données", "Feuil2", "X1", "da
 const SHEETS_QUOTED: &[&str] = &["My Sheet1", "A1", "B2:C3", "a\"b", "Feuille d été", "X+1", "(A1)", "", "2021", "LOG10(A1)"];
 const STRINGS: &[&str] = &["", "a", "A1", "$B$2 + C3", "é A1", "it's", "LOG10(A1)", "x'y'z", "日本A1", "A1:B2", " ", "(", "'", "Sheet1!A1", "AB1!"];
 const NUMS: &[&str] = &["1", "10", "1.5", "0.25", "100", "2021", "3.", "7", "1048576"];
+const TABLES: &[&str] = &["Table1", "Tbl1", "Sales", "Q1", "FY21", "DeptSales", "T_1", "Données", "AB12"];
+const SPECS: &[&str] = &[
+    "Q1", "FY21", "Col1", "A1", "$B$2", "#This Row", "[#This Row],[Q1]", "[#Totals],[Q1 2021]", "[A1]:[B2]", "It''s A1", "'[A1']", "'#A1",
+    "[#Headers],[#Data],[C3]", "@A1", "@[FY21]", "", "Sales Amount", "é A1", "[[A1]]", "\"A1\"", "LOG10(A1)",
+];
 const OPS: &[char] = &['+', '-', '*', '/', '^', '&', '=', '<', '>'];
 
 fn gen_ref(rng: &mut Rng, room: Room) -> Tok {
@@ -203,7 +217,7 @@ fn gen_ref(rng: &mut Rng, room: Room) -> Tok {
 }
 
 fn gen_operand(rng: &mut Rng, room: Room, depth: u32, out: &mut Vec<Tok>) {
-    match rng.below(if depth > 2 { 9 } else { 12 }) {
+    match rng.below(if depth > 2 { 10 } else { 13 }) {
         0..=2 => out.push(gen_ref(rng, room)),
         3 => {
             // area
@@ -237,7 +251,22 @@ fn gen_operand(rng: &mut Rng, room: Room, depth: u32, out: &mut Vec<Tok>) {
             out.push(Tok::Num(rng.pick(NUMS).to_string()));
             out.push(Tok::Punct('%'));
         }
-        9 | 10 => {
+        9 => {
+            // structured reference `Table1[Q1]`, bare specifier `[@Q1]`, or external workbook index `[1]Sheet1!A1`
+            match rng.below(4) {
+                0 | 1 => {
+                    out.push(Tok::Ident(rng.pick(TABLES).to_string()));
+                    out.push(Tok::Struct(rng.pick(SPECS).to_string()));
+                }
+                2 => out.push(Tok::Struct(rng.pick(SPECS).to_string())),
+                _ => {
+                    out.push(Tok::Struct(rng.pick(&["1", "2", "Book1.xlsx", "A1.xlsx"]).to_string()));
+                    out.push(Tok::Sheet(rng.pick(SHEETS_PLAIN).to_string(), false));
+                    out.push(gen_ref(rng, room));
+                }
+            }
+        }
+        10 | 11 => {
             // function call
             out.push(Tok::Ident(rng.pick(FUNCS).to_string()));
             out.push(Tok::Punct('('));
@@ -300,12 +329,13 @@ fn mutate(rng: &mut Rng, toks: &mut Vec<Tok>) {
         return;
     }
     let i = rng.below(toks.len() as u64) as usize;
-    match rng.below(5) {
+    match rng.below(6) {
         0 => {
             toks.remove(i);
         }
         1 => toks.insert(i, Tok::Ident(rng.pick(&["A1", "LOG10", "$B$2", "XFD1", "é", "AB1", "TAX2021"]).to_string())),
         2 => toks.insert(i, Tok::Punct(*rng.pick(&['(', '!', ' ', '#', '[', ']', '{', '@', '\\', '?']))),
+        5 => toks.insert(i, Tok::Struct(rng.pick(&["A1", "[A1", "A1]", "'", "[", "]"]).to_string())),
         3 => toks.insert(i, Tok::Ref { ca: rng.chance(1, 2), col: rng.below(18_278) as u32, ra: rng.chance(1, 2), row: rng.below(1_100_000) as u32 }),
         _ => toks.insert(i, Tok::Num(rng.pick(&["1", "0", ".5", "1."]).to_string())),
     }
@@ -370,6 +400,10 @@ fn feature_sig(toks: &[Tok], imp: &str) -> String {
     let refs = toks.iter().any(|t| matches!(t, Tok::Ref { .. }));
     let idents = toks.iter().any(|t| matches!(t, Tok::Ident(_) | Tok::Sheet(_, false)));
     let quoted = toks.iter().any(|t| matches!(t, Tok::Str(_) | Tok::Sheet(_, true)));
+    let structs = toks.iter().any(|t| matches!(t, Tok::Struct(_)));
+    if structs && !refs {
+        return "replace:structured_reference_changed".into();
+    }
     if idents && !refs {
         "replace:identifier_changed".into()
     } else if mixed {
@@ -443,7 +477,7 @@ fn run_raw(s: &str, dr: i64, dc: i64, drv: &mut Driver) -> (String, String) {
 
 const RAW_PIECES: &[&str] = &[
     "A1", "$A$1", "$", "A", "1", "é", "\"", "'", "!", "(", ")", ":", " ", "+", "XFD", "1048576", "1048577", "XFE", "LOG10", ".", "_", "0", "a1", "Z", "$B", "$2",
-    "日", ",", "A01", "AAAA1", "A12345678", "#REF!", "[1]", "\u{a0}", "×", "0000000", "00000001", "AAA", "a", "$$",
+    "日", ",", "A01", "AAAA1", "A12345678", "#REF!", "[1]", "\u{a0}", "×", "[", "]", "[A1]", "Tbl1[", "0000000", "00000001", "AAA", "a", "$$",
 ];
 
 // ------------------------------------------------------------------------------------------------
@@ -1052,6 +1086,13 @@ fn corpus_unit() -> Vec<(Vec<Tok>, i64, i64)> {
         // D13: a pending numeral was emitted after the string literal that follows it (`1" "` → `" 1"`)
         (vec![Tok::Num("1".into()), Tok::Str(" ".into())], 0, 12),
         (vec![Tok::Sheet("A1".into(), false), rf(false, 27, false, 0)], 0, 16),
+        // review item C3 of fix 54c17fa: table names and column specifiers of structured references were shifted
+        (vec![Tok::Ident("Table1".into()), Tok::Struct("Q1".into()), p('+'), rf(false, 0, false, 0)], 1, 1),
+        (vec![Tok::Ident("SUM".into()), p('('), Tok::Ident("Sales".into()), Tok::Struct("FY21".into()), p(')')], 1, 1),
+        (vec![Tok::Ident("Tbl1".into()), Tok::Struct("Col1".into())], 1, 1),
+        (vec![Tok::Ident("T".into()), Tok::Struct("[#This Row],[A1]".into())], 2, 0),
+        (vec![Tok::Struct("1".into()), Tok::Sheet("Sheet1".into(), false), rf(false, 0, false, 0)], 1, 0),
+        (vec![Tok::Ident("T".into()), Tok::Struct("'[A1']".into()), p('*'), rf(false, 1, false, 1)], 1, 1),
         // the pinned unit test of the repository
         (vec![rf(false, 0, false, 0)], 1, 0),
         (vec![Tok::Ident("XFE123".into()), p(' '), Tok::Str("A3".into()), p(' '), rf(false, 2, false, 106)], 1, 0),
@@ -1147,12 +1188,13 @@ fn main() {
     let mut rep = Report::new(
         "C15",
         "unit: formulas generated from the reference grammar (relative/mixed/absolute refs at column/row boundaries, areas, \
-         sheet prefixes AB1! and 'My Sheet1'!, function names with digits such as LOG10( ATAN2(, defined names with digits that \
+         sheet prefixes AB1! and 'My Sheet1'!, function names with digits such as LOG10( ATAN2(, structured references Table1[Q1] Tbl1[[#This Row],[A1]] and workbook \
+         indices [1]Sheet1!A1 (bracketed spans are opaque, ' escapes inside), defined names with digits that \
          are not cells, numbers, string literals with cell-like / non-ASCII text, doubled quotes as adjacent literals; <= 220 chars) \
          x offsets (0, +-1, small, large, extreme but in-sheet): calamine replace_cell_names (hook) vs Lean model vs oracle \
          render(shift(tokens)) computed here; the oracle is demanded only when the Lean predicate WF holds (references and their \
-         images inside the sheet, cell-like identifiers only before ( or !, no ' inside quoted sheet names, no R1C1 / whole-row / \
-         whole-column / 3-D sheet ranges / structured references); mutated and raw texts are compared impl vs model only. \
+         images inside the sheet, cell-like identifiers only before ( ! or [, no ' inside quoted sheet names, balanced bracket spans, \
+         no R1C1 / whole-row / whole-column / 3-D sheet ranges); mutated and raw texts are compared impl vs model only. \
          file: xlsx sheets with 1-5 shared groups (column, row, block, single cell) on disjoint ranges anywhere in the sheet, \
          members = any subset of the declared range, master = first member in document order (ECMA-376 18.3.1.40: the master is the \
          first formula of the group; a member written before its master is outside the generator), si values shuffled with gaps and \
@@ -1268,6 +1310,7 @@ fn unit_case(toks: &[Tok], dr: i64, dc: i64, class: &str, drv: &mut Driver, rep:
             Tok::Sheet(_, false) => rep.count("tok.sheet_plain"),
             Tok::Ident(_) => rep.count("tok.ident"),
             Tok::Num(_) => rep.count("tok.num"),
+            Tok::Struct(_) => rep.count("tok.struct"),
             Tok::Punct(_) => {}
         }
     }
